@@ -646,7 +646,7 @@ def get_options(args=None, defaults=None):
 
     options.fail = False
 
-    if options.legacy_module_filter:
+    if options.legacy_module_filter is not None:
         module_filter = options.legacy_module_filter
         if module_filter != '.':
             if options.module:
@@ -654,7 +654,7 @@ def get_options(args=None, defaults=None):
             else:
                 options.module = [module_filter]
 
-        if options.legacy_test_filter:
+        if options.legacy_test_filter is not None:
             test_filter = options.legacy_test_filter
             if options.test:
                 options.test.append(test_filter)
